@@ -38,6 +38,12 @@ impl History {
 
     /// Execute the history from scratch against the real library.
     pub fn execute(&self) -> RunResult {
+        self.execute_with(None)
+    }
+
+    /// The same; a step that lies in the region of a listed (step-based) known finding is not executed,
+    /// as in an exploration run.  Histories recorded before a finding was listed may contain such steps.
+    pub fn execute_with(&self, findings: Option<&crate::known::Findings>) -> RunResult {
         let mut res = RunResult::default();
         let mut w = match World::setup(&self.docs, self.cfg()) {
             Ok(w) => w,
@@ -52,6 +58,14 @@ impl History {
             return res;
         }
         for (i, st) in self.steps.iter().enumerate() {
+            if let Some(f) = findings {
+                if f.trigger(&w, st).is_some() {
+                    let mut rep = StepReport::default();
+                    rep.outcome = "skipped (region of a listed finding)".into();
+                    res.reports.push(rep);
+                    continue;
+                }
+            }
             let rep = w.exec_step(st);
             let stop = !rep.fails.is_empty();
             let up = rep.unclaimed_panic.clone();
